@@ -91,6 +91,23 @@ def gen_fasta(rng, n):
             ops.append({"op": "get", "k": rng.choice(keys) if rng.random() < 0.85 else gen_header(rng)})
         elif r < 0.56:
             ops.append({"op": "protocol", "what": rng.choice(["len", "iter", "contains", "items"]), "k": gen_header(rng)})
+        elif r < 0.62:
+            # the rest of the MutableMapping interface the classes are documented to implement
+            what = rng.choice(["clear", "pop", "pop", "pop_default", "popitem", "update", "setdefault", "keys", "values", "get_default"])
+            k = rng.choice(keys) if keys and rng.random() < 0.7 else gen_header(rng)
+            op = {"op": "mapping", "what": what, "k": k}
+            if what in ("update", "setdefault"):
+                op["items"] = [[k, gen_seq(rng, rng.choice(["nuc", "prot_stop"]))]]
+                if what == "update" and rng.random() < 0.6:
+                    op["items"].append([gen_header(rng), gen_seq(rng, "nuc")])
+                for kk, _ in op["items"]:
+                    if kk not in keys:
+                        keys.append(kk)
+            if what == "clear":
+                keys.clear()
+            if what in ("pop", "pop_default") and k in keys:
+                keys.remove(k)
+            ops.append(op)
         elif r < 0.70:
             ops.append({"op": "restart", "medium": rng.choice(MEDIA)})
         elif r < 0.76:
@@ -171,6 +188,22 @@ def gen_fastq(rng, n):
             ops.append({"op": "get", "k": rng.choice(keys) if rng.random() < 0.85 else rng.choice(ids)})
         elif r < 0.58:
             ops.append({"op": "protocol", "what": rng.choice(["len", "iter", "contains", "items"]), "k": rng.choice(ids)})
+        elif r < 0.64:
+            what = rng.choice(["clear", "pop", "pop", "pop_default", "popitem", "update", "setdefault", "keys", "values", "get_default"])
+            k = rng.choice(keys) if keys and rng.random() < 0.7 else rng.choice(ids)
+            op = {"op": "mapping", "what": what, "k": k}
+            if what in ("update", "setdefault"):
+                op["items"] = [[k, list(entry())]]
+                if what == "update" and rng.random() < 0.6:
+                    op["items"].append([rng.choice(ids), list(entry())])
+                for kk, _ in op["items"]:
+                    if kk not in keys:
+                        keys.append(kk)
+            if what == "clear":
+                keys.clear()
+            if what in ("pop", "pop_default") and k in keys:
+                keys.remove(k)
+            ops.append(op)
         elif r < 0.72:
             ops.append({"op": "restart", "medium": rng.choice(MEDIA)})
         elif r < 0.78:
@@ -515,6 +548,84 @@ class Base:
     def invariants(self, after):
         pass
 
+    # ---- MutableMapping interface of FastaFile / FastqFile beyond set/get/del (clear, pop, popitem, update, ...) ----
+    def to_lib(self, mv):
+        return mv
+
+    def from_lib(self, v):
+        return v
+
+    def op_mapping(self, op):
+        f, m = self.file, self.model
+        what, k = op["what"], op["k"]
+        self.res.stats["probe:mapping-" + what] += 1
+        if what == "clear":
+            st, v = call(f.clear)
+            if st == "exc":
+                self.fail("mapping:raised", what=what, got=exc_name(v), msg=str(v)[:200])
+            m.clear()
+            self.mutations += 1
+            return "ok"
+        if what in ("pop", "pop_default"):
+            st, v = call(f.pop, k) if what == "pop" else call(f.pop, k, "DFLT")
+            if k not in m:
+                if what == "pop":
+                    return self.rejected(st, v, KeyError, "missing-key")
+                if st == "exc" or v != "DFLT":
+                    self.fail("mapping:pop-default", got=str(v)[:100] if st == "ok" else exc_name(v))
+                return "default"
+            if st == "exc" or self.from_lib(v) != m[k]:
+                self.fail("mapping:pop-value", key=k, got=str(v)[:100] if st == "ok" else exc_name(v), expected=str(m[k])[:100])
+            del m[k]
+            self.mutations += 1
+            return "ok"
+        if what == "popitem":
+            first = next(iter(f), None)
+            st, v = call(f.popitem)
+            if not m:
+                return self.rejected(st, v, KeyError, "popitem-on-empty")
+            if st == "exc" or v[0] != first or v[0] not in m or self.from_lib(v[1]) != m[v[0]]:
+                self.fail("mapping:popitem", got=str(v)[:100] if st == "ok" else exc_name(v), first=first)
+            del m[v[0]]
+            self.mutations += 1
+            return "ok"
+        if what == "update":
+            items = {kk: self.to_lib(self.mv(vv)) for kk, vv in op["items"]}
+            st, v = call(f.update, items)
+            if st == "exc":
+                self.fail("mapping:raised", what=what, got=exc_name(v), msg=str(v)[:200])
+            for kk, vv in op["items"]:
+                m[kk] = self.mv(vv)
+            self.mutations += 1
+            return "ok"
+        if what == "setdefault":
+            kk, vv = op["items"][0]
+            st, v = call(f.setdefault, kk, self.to_lib(self.mv(vv)))
+            exp = m[kk] if kk in m else self.mv(vv)
+            if st == "exc" or self.from_lib(v) != exp:
+                self.fail("mapping:setdefault", key=kk, got=str(v)[:100] if st == "ok" else exc_name(v), expected=str(exp)[:100])
+            m.setdefault(kk, self.mv(vv))
+            self.mutations += 1
+            return "ok"
+        if what == "keys":
+            st, v = call(lambda: sorted(f.keys()))
+            exp = sorted(m)
+        elif what == "values":
+            st, v = call(lambda: sorted(repr(self.from_lib(x)) for x in f.values()))
+            exp = sorted(repr(x) for x in m.values())
+        else:
+            st, v = call(lambda: f.get(k, "DFLT"))
+            if st == "ok" and k in m:
+                v = self.from_lib(v)
+            exp = m.get(k, "DFLT")
+        if st == "exc" or v != exp:
+            self.fail("model:protocol-differs", what=what, got=str(v)[:200] if st == "ok" else exc_name(v), expected=str(exp)[:200])
+        return "ok"
+
+    def mv(self, raw):
+        """model value from the JSON form of the spec"""
+        return raw
+
     def rejected(self, st, val, exc_types, what, **detail):
         self.res.stats["probe:rejected-op"] += 1
         self.res.stats["fault:" + what] += 1
@@ -815,6 +926,15 @@ class FastqSim(Base):
             st, re2 = call(lambda: self.view(self.F.read(io.StringIO(text_of(f)), OFFSETS[self.off], self.cfg["cpl"])))
             if st == "exc" or re2 != live:
                 self.fail("consistency:named-offset-differs-from-documented-number", after=after, name=self.off, number=OFFSETS[self.off])
+
+    def to_lib(self, mv):
+        return (mv[0], np.array(mv[1], dtype=int))
+
+    def from_lib(self, v):
+        return (v[0], [int(x) for x in v[1]])
+
+    def mv(self, raw):
+        return (raw[0], list(raw[1]))
 
     def note_scores(self, seq, scores):
         o = self.off if isinstance(self.off, int) else OFFSETS[self.off]
@@ -1345,6 +1465,27 @@ class GenBankSim(Base):
             d, aseq = back
             if d != definition or str(aseq.sequence) != seq or aseq.sequence_start != start or aseq.annotation != annot:
                 self.fail("multi:record-changed", index=i, got=[d, str(aseq.sequence)[:40], aseq.sequence_start], expected=[definition, seq[:40], start])
+        # each record is a GenBankFile of its own: editing it through the list interface keeps its text and its view
+        # consistent, like for a file read on its own (first, middle and last position)
+        for i, f in enumerate(recs):
+            for which in ("first", "last", "middle"):
+                st, before = call(self.view, f)
+                if st == "exc":
+                    self.fail("multi:record-unreadable", index=i, got=exc_name(before))
+                pos = {"first": 0, "last": len(before), "middle": len(before) // 2}[which]
+                content = [f"edited record {i} {which}"]
+                st, v = call(f.insert, pos, "COMMENT", content)
+                if st == "exc":
+                    self.fail("multi:record-edit-raised", index=i, at=which, got=exc_name(v), msg=str(v)[:200])
+                exp = before[:pos] + [("COMMENT", content, {})] + before[pos:]
+                st, live = call(self.view, f)
+                if st == "exc" or live != exp:
+                    self.fail("multi:record-view-after-edit", index=i, at=which, got=live[:4] if st == "ok" else exc_name(live), expected=exp[:4])
+                st, re = call(lambda: self.view(self.F.read(io.StringIO(text_of(f)))))
+                if st == "exc" or re != live:
+                    self.fail("consistency:text-and-view-differ", after="multi_record:insert", index=i, at=which,
+                              view=[x[0] for x in live], reparsed=[x[0] for x in re] if st == "ok" else exc_name(re), lines=f.lines[:4])
+            self.res.stats["probe:multi-record-edited"] += 1
         self.readbacks += 1
         self.mutations += 1
         self.res.stats["probe:typed-roundtrip"] += 1
